@@ -4,11 +4,14 @@
    meaningful to the scanner under test (delimiters, halves of delimiters, escapes cut short,
    numbers that overflow).  Because the halves of multi-byte tokens are tokens themselves, the
    reachable states contain every truncation of every generated packet.
-   Fams: sequence of families [name, toks, pres, maxlen] - one per function family under test;
-     toks: sequence of [n |-> name, b |-> bytes, hot |-> BOOLEAN]; `hot` marks tokens whose mere
-           presence defines the class of the input (e.g. a chunk size that overflows);
-     pres: sequence of [n |-> name, b |-> bytes] (preambles).
-   Class (the <shape> of finding keys): "has:<first hot token>", else "ends:<last token>".   *)
+   Fams: sequence of families [name, toks, pres, maxlen, tail, tailcls] - one per function family;
+     toks: sequence of [n |-> name, b |-> bytes, c |-> class, hot |-> BOOLEAN]; `hot` marks tokens
+           whose mere presence defines the class of the input (a chunk size that overflows);
+     pres: sequence of [n |-> name, b |-> bytes, c |-> class] (preambles);
+     tail, tailcls: a token of class `tailcls` among the last `tail` elements defines the class
+           (a '%' within the last two bytes, a CRLF right before the end).
+   Class of an input (the <shape> of finding keys):
+     "has:<class of the first hot token>", else "tail:<tailcls>", else "ends:<class of the last element>". *)
 EXTENDS Naturals, Sequences, TLC, Json
 CONSTANTS Fams
 VARIABLES fam, pre, its, cs
@@ -19,13 +22,24 @@ Bytes(f, s) == IF s = <<>> THEN <<>> ELSE Toks(f)[Head(s)].b \o Bytes(f, Tail(s)
 RECURSIVE Names(_, _)
 Names(f, s) == IF s = <<>> THEN <<>> ELSE <<Toks(f)[Head(s)].n>> \o Names(f, Tail(s))
 RECURSIVE FirstHot(_, _)
-FirstHot(f, s) == IF s = <<>> THEN "" ELSE IF Toks(f)[Head(s)].hot THEN Toks(f)[Head(s)].n ELSE FirstHot(f, Tail(s))
+FirstHot(f, s) == IF s = <<>> THEN "" ELSE IF Toks(f)[Head(s)].hot THEN Toks(f)[Head(s)].c ELSE FirstHot(f, Tail(s))
+RECURSIVE Classes(_, _)
+Classes(f, s) == IF s = <<>> THEN <<>> ELSE <<Toks(f)[Head(s)].c>> \o Classes(f, Tail(s))
+
+Shape(f, p, s) ==
+   LET h  == FirstHot(f, s)
+       cl == <<Fams[f].pres[p].c>> \o Classes(f, s)          \* the preamble counts as the first element
+       n  == Len(cl)
+       lo == IF n > Fams[f].tail THEN n - Fams[f].tail + 1 ELSE 1
+   IN IF h # "" THEN [kind |-> "has", tok |-> h]
+      ELSE IF Fams[f].tailcls # "" /\ \E i \in lo..n : cl[i] = Fams[f].tailcls
+           THEN [kind |-> "tail", tok |-> Fams[f].tailcls]
+      ELSE [kind |-> "ends", tok |-> cl[n]]
 
 MkCase(f, p, s) ==
-   LET h == FirstHot(f, s)  P == Fams[f].pres[p] IN
+   LET sh == Shape(f, p, s)  P == Fams[f].pres[p] IN
    [fam |-> Fams[f].name, pre |-> P.n, items |-> Names(f, s), bytes |-> P.b \o Bytes(f, s),
-    kind |-> IF h # "" THEN "has" ELSE "ends",
-    tok  |-> IF h # "" THEN h ELSE IF s = <<>> THEN P.n ELSE Toks(f)[s[Len(s)]].n]
+    kind |-> sh.kind, tok |-> sh.tok]
 
 Init == /\ fam \in 1..Len(Fams) /\ pre \in 1..Len(Fams[fam].pres) /\ its = <<>>
         /\ cs = MkCase(fam, pre, <<>>)
@@ -39,7 +53,8 @@ RECURSIVE SumLen(_, _)
 SumLen(f, s) == IF s = <<>> THEN 0 ELSE Len(Toks(f)[Head(s)].b) + SumLen(f, Tail(s))
 SizeLaw  == Len(cs.bytes) = Len(Fams[fam].pres[pre].b) + SumLen(fam, its)
 ByteLaw  == \A i \in 1..Len(cs.bytes) : cs.bytes[i] \in 0..255
-ClassLaw == /\ cs.kind \in {"has", "ends"}
-            /\ (cs.kind = "ends" /\ its # <<>>) => cs.tok = Toks(fam)[its[Len(its)]].n
+ClassLaw == /\ cs.kind \in {"has", "tail", "ends"}
+            /\ (cs.kind = "ends" /\ its # <<>>) => cs.tok = Toks(fam)[its[Len(its)]].c
+            /\ (cs.kind = "tail") => cs.tok = Fams[fam].tailcls
 Emit == PrintT(ToJson(cs))
 =============================================================================
